@@ -207,6 +207,16 @@ func (queue *FileQueue) scanFile(filePath string, offset int64) (int64, error) {
 			return queue.Offset, ErrEOF
 		}
 
+		if err == ErrRecordTorn {
+			// The process died while it was appending this record: the write was never acknowledged, so the record is
+			// not part of the log. Cut it off, so that what is appended next is not followed by its remains
+			log.Warnf("load file %s: incomplete record at %d/%d is dropped", filePath, queue.Offset, fileSize)
+			if err := os.Truncate(filePath, queue.Offset); err != nil {
+				return -1, err
+			}
+			return queue.Offset, ErrEOF
+		}
+
 		if err != nil {
 			return -1, err
 		}
